@@ -8,6 +8,7 @@ import (
 	"regexp"
 	"math/big"
 	"go/constant"
+	"go/token"
 	"go/types"
 	"strings"
 
@@ -45,6 +46,7 @@ type Env struct {
 	logSt     *State // state in which call-log components are read (nil: st)
 	goal      bool // the formula is being proved (true) or assumed (false)
 	pol       int  // polarity of the current subformula: +1, -1, 0 (unknown)
+	split     bool         // directly inside an outermost assumed universal (Skolem form stated separately)
 	univ      []univBinder // enclosing assumed universal binders (for Skolem functions)
 	noSkolem  bool         // some enclosing quantifier is not an assumed universal
 }
@@ -196,7 +198,7 @@ func (vc *FuncVC) lookupIdent(env *Env, name string) *CVal {
 		fn := vc.Fn
 		// names bound by the source (DebugRef) that dominate the loop header
 		if env.loop != nil {
-			if v := vc.debugValue(name, env.loop.header); v != nil {
+			if v := vc.debugValue(name, env.loop.header, env.st); v != nil {
 				if os.Getenv("GOVC_DEBUG") != "" {
 					fmt.Fprintf(os.Stderr, "lookup %s via debugValue at block %d -> %s\n", name, env.loop.header.Index, v.T.S)
 				}
@@ -223,7 +225,7 @@ func (vc *FuncVC) lookupIdent(env *Env, name string) *CVal {
 		}
 		if env.loop == nil {
 			// outside loops allow DebugRef names that dominate the current block
-			if v := vc.debugValue(name, vc.curBlock); v != nil {
+			if v := vc.debugValue(name, vc.curBlock, env.st); v != nil {
 				return v
 			}
 		}
@@ -251,6 +253,26 @@ func (vc *FuncVC) lookupIdent(env *Env, name string) *CVal {
 	}
 	if p := vc.knownPkg(name); p != nil {
 		return &CVal{Pkg: p}
+	}
+	if env.goal && !env.callee && len(vc.debugRefs[name]) > 0 {
+		// a local variable of the function that does not exist (yet) at this point: in a
+		// formula to be proved it is left unconstrained, which can only make the proof harder
+		d := vc.debugRefs[name][0]
+		t := d.X.Type()
+		if d.IsAddr {
+			t = t.Underlying().(*types.Pointer).Elem()
+		}
+		if !isStruct(t) {
+			if vc.undefVars == nil {
+				vc.undefVars = map[string]Term{}
+			}
+			c, ok := vc.undefVars[name]
+			if !ok {
+				c = vc.declareGlobal("undef!"+name, vc.sortOf(t))
+				vc.undefVars[name] = c
+			}
+			return &CVal{T: c, Typ: t}
+		}
 	}
 	panic(fmt.Errorf("unknown identifier %q", name))
 }
@@ -319,7 +341,7 @@ func (vc *FuncVC) objValue(env *Env, obj types.Object) *CVal {
 
 // debugValue finds the SSA value the source variable `name` holds at block b:
 // the closest DebugRef (not an address) in a block dominating b.
-func (vc *FuncVC) debugValue(name string, b *ssa.BasicBlock) *CVal {
+func (vc *FuncVC) debugValue(name string, b *ssa.BasicBlock, st *State) *CVal {
 	if b == nil {
 		return nil
 	}
@@ -333,29 +355,64 @@ func (vc *FuncVC) debugValue(name string, b *ssa.BasicBlock) *CVal {
 				if isStruct(elem) {
 					return &CVal{T: vc.val(a).T, Typ: elem, SRef: true, Suffix: vc.localSuffix(a)}
 				}
-				return &CVal{T: vc.load(vc.cur, a), Typ: elem}
+				return &CVal{T: vc.load(st, a), Typ: elem}
 			}
 		}
 	}
 	// single-valued variable: every use (not the declaring occurrence, whose DebugRef can
 	// predate the initialising store) sees the same SSA value, and it is defined above b
-	var single ssa.Value
-	uniform := true
-	for _, d := range vc.debugRefs[name] {
-		if d.IsAddr || isDeclaringRef(d) {
-			continue
+	// (variables of the same name are told apart by their declaration)
+	{
+		type cand struct {
+			single  ssa.Value
+			uniform bool
 		}
-		if single == nil {
-			single = d.X
-		} else if single != d.X {
-			uniform = false
-		}
-	}
-	if single != nil && uniform {
-		if in, ok := single.(ssa.Instruction); !ok || in.Block() == b || in.Block().Dominates(b) {
-			if _, done := vc.vals[single]; done || !ok {
-				return vc.fromVal(vc.val(single), single.Type())
+		byObj := map[types.Object]*cand{}
+		var order []types.Object
+		for _, d := range vc.debugRefs[name] {
+			if d.IsAddr || isDeclaringRef(d) {
+				continue
 			}
+			o := d.Object()
+			c := byObj[o]
+			if c == nil {
+				c = &cand{uniform: true}
+				byObj[o] = c
+				order = append(order, o)
+			}
+			if c.single == nil {
+				c.single = d.X
+			} else if c.single != d.X {
+				c.uniform = false
+			}
+		}
+		var bestSingle ssa.Value
+		ambiguous := false
+		for _, o := range order {
+			c := byObj[o]
+			if c.single == nil || !c.uniform {
+				continue
+			}
+			in, ok := c.single.(ssa.Instruction)
+			if ok && !(in.Block() == b || in.Block().Dominates(b)) {
+				continue
+			}
+			if _, done := vc.vals[c.single]; !done && ok {
+				continue
+			}
+			// the variable must be in scope at b: its declaration precedes and encloses b's position
+			if o != nil && o.Parent() != nil && b.Instrs != nil {
+				if pos := blockPos(b); pos.IsValid() && !(o.Parent().Pos() <= pos && pos <= o.Parent().End()) {
+					continue
+				}
+			}
+			if bestSingle != nil && bestSingle != c.single {
+				ambiguous = true
+			}
+			bestSingle = c.single
+		}
+		if bestSingle != nil && !ambiguous {
+			return vc.fromVal(vc.val(bestSingle), bestSingle.Type())
 		}
 	}
 	for _, d := range vc.debugRefs[name] {
@@ -403,7 +460,7 @@ func (vc *FuncVC) debugValue(name string, b *ssa.BasicBlock) *CVal {
 		if isStruct(elem) {
 			return &CVal{T: vc.val(best.X).T, Typ: elem, SRef: true, Suffix: vc.localSuffix(best.X)}
 		}
-		return &CVal{T: vc.load(vc.cur, best.X), Typ: elem}
+		return &CVal{T: vc.load(st, best.X), Typ: elem}
 	}
 	if os.Getenv("GOVC_DEBUG") != "" {
 		for _, d := range vc.debugRefs[name] {
@@ -1009,6 +1066,98 @@ func (vc *FuncVC) evalCall(env *Env, x *ECall) *CVal {
 		default:
 			return &CVal{T: T(app(names.idxOf, arg(0).T), SInt), Typ: types.Typ[types.Int]}
 		}
+	case "before", "after":
+		// before(L, e) / after(L, e): e evaluated in the heap right before / after the call labelled L;
+		// before(L, i, e) / after(L, i, e) pick the i-th call site in program order when L has several.
+		// (Call sites outside loops; meaningful on paths that execute the site.)
+		id, ok := x.Args[0].(*EIdent)
+		if !ok || len(x.Args) < 2 || len(x.Args) > 3 {
+			panic(fmt.Errorf("%s(L, [i,] e): a watch label and an expression are expected", name))
+		}
+		sts := vc.callPre[id.Name]
+		if name == "after" {
+			sts = vc.callPost[id.Name]
+		}
+		site := 0
+		if len(x.Args) == 3 {
+			k, ok := x.Args[1].(*EInt)
+			if !ok {
+				panic(fmt.Errorf("%s(%s, i, e): a constant site index is expected", name, id.Name))
+			}
+			site = int(k.V.Int64())
+			if site < 0 {
+				panic(fmt.Errorf("%s(%s, %d, …): bad site index", name, id.Name, site))
+			}
+		} else if len(sts) > 1 {
+			panic(fmt.Errorf("%s(%s, …): the label has %d executed call sites before this point (give the site index)", name, id.Name, len(sts)))
+		}
+		n := *env
+		if env.callee {
+			// a callee's clause about one of its intermediate heaps: some heap the caller
+			// knows nothing about (one per call, label, site and side)
+			key := fmt.Sprintf("%s|%s|%s|%d", env.logPrefix, name, id.Name, site)
+			if vc.midStates == nil {
+				vc.midStates = map[string]*State{}
+			}
+			st, ok := vc.midStates[key]
+			if !ok {
+				st = vc.newState(stHavoc, vc.entryState)
+				st.havocTotal = true
+				st.havocAll = true
+				vc.midStates[key] = st
+			}
+			n.st = st
+			if n.logSt == nil {
+				n.logSt = env.st
+			}
+			return vc.eval(&n, x.Args[len(x.Args)-1])
+		}
+		if site >= len(sts) {
+			// the site comes later in the function: no path to this point has executed it.
+			// In a formula to be proved its heap is left unconstrained (which can only make
+			// the proof harder); elsewhere this is an error.
+			if !env.goal {
+				panic(fmt.Errorf("%s(%s, …): the call site has not been executed before this point", name, id.Name))
+			}
+			if vc.neverState == nil {
+				vc.neverState = vc.newState(stHavoc, vc.entryState)
+				vc.neverState.havocTotal = true
+				vc.neverState.havocAll = true
+			}
+			n.st = vc.neverState
+		} else {
+			n.st = sts[site]
+		}
+		if n.logSt == nil {
+			n.logSt = env.st
+		}
+		return vc.eval(&n, x.Args[len(x.Args)-1])
+	case "inloop":
+		// inloop(K, e): e with the iteration names (mapkey, mapidx, mapcard, mappos) of loop K
+		k, ok := x.Args[0].(*EInt)
+		if !ok || len(x.Args) != 2 {
+			panic(fmt.Errorf("inloop(K, e): a loop ordinal and an expression are expected"))
+		}
+		for _, li := range vc.loops {
+			if li.ordinal == int(k.V.Int64()) {
+				n := *env
+				n.loop = li
+				n.phiEdge = -1
+				return vc.eval(&n, x.Args[1])
+			}
+		}
+		panic(fmt.Errorf("inloop: no loop %d", k.V.Int64()))
+	case "mapat":
+		// mapat(m, k): the value stored under k (unspecified when k is absent; m[k] is the Go
+		// read that yields the zero value then). Free of conditionals, hence usable as a trigger.
+		m, k := arg(0), arg(1)
+		mt, ok := m.Typ.Underlying().(*types.Map)
+		if !ok {
+			panic(fmt.Errorf("mapat: a map is expected"))
+		}
+		_, vn := vc.mapComps(mt)
+		ks, vs := vc.sortOf(mt.Key()), vc.sortOf(mt.Elem())
+		return &CVal{T: Select(Select(env.st.get(vn), m.T, arraySort(ks, vs)), k.T, vs), Typ: mt.Elem()}
 	case "outer":
 		if env.loop == nil {
 			panic(fmt.Errorf("outer() outside a loop invariant"))
@@ -1280,13 +1429,24 @@ func (vc *FuncVC) evalQuant(env *Env, x *EQuant) *CVal {
 		t := vc.eval(n, x.Body).T
 		vc.quantDepth--
 		skolemForm = &t
+		if env.split && vc.quantDepth == 1 {
+			// directly under an outermost assumed universal: that universal is stated twice,
+			// once as written and once in Skolem form triggered by the Skolem terms
+			for _, f := range sk.fn {
+				vc.pendingSk = append(vc.pendingSk, app(f, args...))
+			}
+			return &CVal{T: t}
+		}
 	}
 	n := env.child()
+	n.split = false
 	if x.Forall && hypLike && !env.noSkolem {
 		n.univ = append([]univBinder{}, env.univ...)
+		n.split = vc.quantDepth == 0 && os.Getenv("GOVC_X2") == ""
 	} else {
 		n.noSkolem = true
 	}
+	pendingBefore := len(vc.pendingSk)
 	var binders []string
 	for _, b := range x.Vars {
 		vc.seq++
@@ -1311,6 +1471,32 @@ func (vc *FuncVC) evalQuant(env *Env, x *EQuant) *CVal {
 	res := T(fmt.Sprintf("(%s (%s) %s)", q, strings.Join(binders, " "), body.T.S), SBool)
 	if skolemForm != nil {
 		res = And(res, *skolemForm)
+	}
+	if n.split && len(vc.pendingSk) > pendingBefore {
+		pats := ""
+		for _, t := range vc.pendingSk[pendingBefore:] {
+			pats += " :pattern (" + t + ")"
+		}
+		vc.pendingSk = vc.pendingSk[:pendingBefore]
+		skRes := T(fmt.Sprintf("(forall (%s) (! %s%s))", strings.Join(binders, " "), body.T.S, pats), SBool)
+		// the same universal as written (existentials kept)
+		n2 := env.child()
+		n2.noSkolem = true
+		var binders2 []string
+		for _, b := range x.Vars {
+			vc.seq++
+			name := sym(fmt.Sprintf("q!%s!%d", b.Name, vc.seq))
+			sort, typ := vc.binderSort(b.Type)
+			binders2 = append(binders2, fmt.Sprintf("(%s %s)", name, sort))
+			n2.vars[b.Name] = &CVal{T: T(name, sort), Typ: typ}
+			if b.Type == "strrow" {
+				n2.vars[b.Name].ElemTyp = types.Typ[types.String]
+			}
+		}
+		vc.quantDepth++
+		body2 := vc.eval(n2, x.Body)
+		vc.quantDepth--
+		res = And(T(fmt.Sprintf("(forall (%s) %s)", strings.Join(binders2, " "), body2.T.S), SBool), skRes)
 	}
 	if !x.Forall && vc.quantDepth == 0 && goalLike {
 		alts := []Term{res}
@@ -1368,6 +1554,16 @@ func (vc *FuncVC) evalQuant(env *Env, x *EQuant) *CVal {
 		res = Or(alts...)
 	}
 	return &CVal{T: res}
+}
+
+// blockPos: the source position of the first positioned instruction of a block.
+func blockPos(b *ssa.BasicBlock) token.Pos {
+	for _, in := range b.Instrs {
+		if p := in.Pos(); p.IsValid() {
+			return p
+		}
+	}
+	return token.NoPos
 }
 
 var boundVarRe = regexp.MustCompile(`\|q!([A-Za-z_0-9]+)!\d+\|`)
@@ -1531,6 +1727,11 @@ func (vc *FuncVC) mapRangeOf(li *loopInfo) (*iterInfo, iterNames) {
 			if nx, ok := in.(*ssa.Next); ok {
 				if it := vc.iterOf[nx.Iter]; it != nil && !it.isStr {
 					return it, vc.iterNames[nx.Iter]
+				}
+				if rg, ok := nx.Iter.(*ssa.Range); ok && vc.iterOf[nx.Iter] == nil {
+					if it, nm := vc.staticIter(rg); it != nil {
+						return it, nm
+					}
 				}
 			}
 		}
